@@ -38,7 +38,7 @@ Lemma shared_example_lifts : (2 <= List.length (cpdefs (compiled_or_empty ex_sha
 Proof. vm_compute. repeat constructor. Qed.
 (* the guard is not implied by acceptance: the witnesses of the finding call-to-main and of the former finding
    main-non-integer-result are outside.  The two witnesses of the former finding capture-under-binder (repaired in /repo
-   by <commitcap>; the guard has no capture clause any more) are INSIDE, although the syntactic detector
+   by d5d4151; the guard has no capture clause any more) are INSIDE, although the syntactic detector
    [shadowing_risk_prog] fires on them, and the conclusion of the theorem is evaluated on them too. *)
 Lemma guard_on_witnesses :
   prog_tyguard call_main_witness = false /\ prog_tyguard main_nonint_witness = false /\
